@@ -71,3 +71,24 @@ Theorem C04_nofault_init_is_pure_model :
     NFd (initM sha sigok c) d (cs_init_recover sha sigok c d).
 Proof. exact init_refines. Qed.
 Print Assumptions C04_nofault_init_is_pure_model.
+
+(* ---------- torn writes of patches_state.json (JsonTorn.v) ----------
+   Fault.write_pj leaves JGarbage when the process dies or a write fails in the middle of disk_io::write.  With the
+   text-level reader in the model this is no longer an assumption about JSON: if the complete text reads as a state,
+   begins with the opening brace and ends with the closing one (what to_writer_pretty writes; the harness checks that shape on every file
+   the library writes), then every strict prefix of it is garbage for the reader. *)
+From UV Require Import Json JsonText JsonTextProofs JsonState JsonStateProofs JsonTorn JsonStateExist.
+Theorem C04_torn_state_file_is_garbage :
+  forall (P p r : bytes) s,
+    pstate_of_body P = Some s -> P = (p ++ r)%list -> r <> [] ->
+    (exists x, skip_ws P = (123 :: x)%N) -> (exists y, P = (y ++ [125%N])%list) ->
+    pj_of_file p = JGarbage.
+Proof. exact torn_state_file_is_garbage. Qed.
+Print Assumptions C04_torn_state_file_is_garbage.
+
+(* (and such texts exist for every state the model can hold) *)
+Theorem C04_every_state_has_such_a_file :
+  forall s, pstate_in_range s -> pstate_utf8 s ->
+    exists P, pstate_of_body P = Some s /\ (exists x, skip_ws P = (123 :: x)%N) /\ (exists y, P = (y ++ [125%N])%list).
+Proof. exact state_has_a_file. Qed.
+Print Assumptions C04_every_state_has_such_a_file.
